@@ -48,10 +48,14 @@ const (
 	KAtomic
 	KJoin
 	KDone
+	KCondEnq    // Cond.Wait, first half: the caller joins the wait queue (before it releases L)
+	KCondBlock  // Cond.Wait, second half: blocked until signalled
+	KCondSignal // Cond.Signal (n == 0) or Cond.Broadcast (n == 1)
 )
 
 var kindNames = [...]string{"start", "lock-announce", "lock", "unlock", "rlock", "runlock", "trylock", "tryrlock",
-	"read", "write", "point", "gate", "spawn", "once-enter", "once-done", "wg-add", "wg-wait", "atomic", "join", "done"}
+	"read", "write", "point", "gate", "spawn", "once-enter", "once-done", "wg-add", "wg-wait", "atomic", "join", "done",
+	"cond-enqueue", "cond-wait", "cond-signal"}
 
 func (k Kind) String() string { return kindNames[k] }
 
@@ -115,6 +119,8 @@ type lockState struct {
 	onceSt   int     // 0 new, 1 running, 2 done
 	wgCount  int
 	wgWaitVC vclock
+	condQ    []*Task        // Cond: waiters in arrival order
+	condWoke map[*Task]bool // Cond: waiters that have been signalled and not yet resumed
 }
 
 type locState struct {
@@ -322,6 +328,9 @@ func (s *Sim) enabledReq(t *Task) bool {
 	case KWgWait:
 		l := s.lockOf(r.obj, false)
 		return l.wgCount <= 0
+	case KCondBlock:
+		l := s.lockOf(r.obj, false)
+		return l.condWoke[t]
 	case KJoin:
 		for _, o := range s.tasks {
 			if o != t && !o.done && !(o.parked && o.req.kind == KJoin) {
@@ -587,6 +596,33 @@ func (s *Sim) apply(t *Task) {
 			}
 		}
 		s.logEvent(t, r.kind, r.label)
+	case KCondEnq:
+		l := s.lockOf(r.obj, false)
+		l.condQ = append(l.condQ, t)
+		s.logEvent(t, r.kind, l.label)
+	case KCondBlock:
+		l := s.lockOf(r.obj, false)
+		delete(l.condWoke, t)
+		t.vc.join(l.relW) // what the signaller did before signalling
+		s.logEvent(t, r.kind, l.label)
+	case KCondSignal:
+		// Signal wakes the longest-waiting goroutine, Broadcast all of them (the
+		// runtime's notify list is first in, first out)
+		l := s.lockOf(r.obj, false)
+		n := 1
+		if r.n == 1 {
+			n = len(l.condQ)
+		}
+		for ; n > 0 && len(l.condQ) > 0; n-- {
+			if l.condWoke == nil {
+				l.condWoke = map[*Task]bool{}
+			}
+			l.condWoke[l.condQ[0]] = true
+			l.condQ = l.condQ[1:]
+		}
+		l.relW.join(t.vc)
+		t.vc.tick(t.ID)
+		s.logEvent(t, r.kind, l.label)
 	case KAtomic:
 		// an atomic operation on the location. Go's memory model orders a write
 		// before the reads that observe it and nothing else: a load acquires, a
@@ -705,6 +741,8 @@ func (s *Sim) describeBlocked(t *Task) string {
 		return fmt.Sprintf("task %d waits for %s on %s held by %s", t.ID, r.kind, l.label, holder)
 	case KGate:
 		return fmt.Sprintf("task %d stalled in callback", t.ID)
+	case KCondBlock:
+		return fmt.Sprintf("task %d waits on condition variable %s that nobody signals", t.ID, s.lockOf(r.obj, false).label)
 	}
 	return fmt.Sprintf("task %d waits at %s %s", t.ID, r.kind, r.label)
 }
@@ -813,6 +851,19 @@ func Forget(p unsafe.Pointer) {
 	if s := cur; s != nil {
 		delete(s.locks, p)
 	}
+}
+
+// CondEnqueue, CondBlock and CondSignal are the sim points of sync.Cond (Wait
+// is enqueue, release of L by the caller, block, re-acquisition of L).
+func CondEnqueue(p unsafe.Pointer) { s := must(); s.point(request{kind: KCondEnq, obj: p}) }
+func CondBlock(p unsafe.Pointer)   { s := must(); s.point(request{kind: KCondBlock, obj: p}) }
+func CondSignal(p unsafe.Pointer, all bool) {
+	s := must()
+	n := 0
+	if all {
+		n = 1
+	}
+	s.point(request{kind: KCondSignal, obj: p, n: n})
 }
 
 // Modes of an atomic operation (see the KAtomic case).
